@@ -14,12 +14,12 @@ ASSUMPTIONS = [
 SUBS = [
     # budgets sized for ~15-20 s (quick) / ~1.5-2 min (thorough) per shard on an idle machine, 3-5x that on the shared one; maxsec only
     # truncates (never fails) when the machine is shared
-    dict(name="array", quick=dict(cases=7000, shards=5, maxsec=25), thorough=dict(cases=10000, shards=6, maxsec=300)),
-    dict(name="typed", quick=dict(cases=12000, shards=2, maxsec=25), thorough=dict(cases=18000, shards=2, maxsec=300)),
-    dict(name="queue", quick=dict(cases=20000, shards=2, maxsec=25), thorough=dict(cases=38000, shards=2, maxsec=300)),
-    dict(name="map", quick=dict(cases=16000, shards=3, maxsec=25), thorough=dict(cases=20000, shards=3, maxsec=300)),
+    dict(name="array", quick=dict(cases=8000, shards=5, maxsec=25), thorough=dict(cases=10000, shards=6, maxsec=300)),
+    dict(name="typed", quick=dict(cases=14000, shards=2, maxsec=25), thorough=dict(cases=18000, shards=2, maxsec=300)),
+    dict(name="queue", quick=dict(cases=24000, shards=2, maxsec=25), thorough=dict(cases=38000, shards=2, maxsec=300)),
+    dict(name="map", quick=dict(cases=20000, shards=3, maxsec=25), thorough=dict(cases=20000, shards=3, maxsec=300)),
     # the pool sub forks one process per history itself (it must call exit(), the engine's fork mode uses _exit())
-    dict(name="pool", quick=dict(cases=3500, shards=4, maxsec=25), thorough=dict(cases=8000, shards=3, maxsec=300)),
+    dict(name="pool", quick=dict(cases=4000, shards=4, maxsec=25), thorough=dict(cases=8000, shards=3, maxsec=300)),
 ]
 
 
